@@ -14,6 +14,10 @@ def _IFFIRST(t):
     return [("MCQueryGen_iffirst%s.cfg" % ("" if t == "quick" else "_t"), None, {"cap": {"quick": 300, "thorough": 1500}})]
 
 
+# columns whose element type is fixed by a declaration (tree type, enum, bool, float) as elements of vector columns
+_TREETYPES = [("MCQueryGen_typesvec.cfg", None, {"md10": True, "cap": {"quick": 150, "thorough": 1200}})]
+
+
 def _NONNULL(cfg):
     "the CMS-only isNonnull(ref) guard profile, on both CMS backends"
     return [(cfg, None, {"backend": b, "md10": True, "cap": {"quick": 120, "thorough": 1400}}) for b in ("cms_aod", "cms_miniaod")]
@@ -43,8 +47,10 @@ SPECS = {
     "C02": pcheck.PSpec(
         "C02",
         clauses=["PackageComplete", "NoResidualDirective", "Compiles", "BookingFault", "OneTree"],
-        profiles={"quick": [("MCQueryGen_core.cfg", None), ("MCQueryGen_schema.cfg", None), ("MCQueryGen_fault.cfg", None)] + _ROWS("quick"),
-                  "thorough": [("MCQueryGen_core_t.cfg", None), ("MCQueryGen_schema_t.cfg", None), ("MCQueryGen_fault_t.cfg", None)] + _ROWS("thorough")},
+        profiles={"quick": [("MCQueryGen_core.cfg", None), ("MCQueryGen_schema.cfg", None), ("MCQueryGen_fault.cfg", None)] + _ROWS("quick")
+                           + [("MCQueryGen_userfn_e.cfg", None, {"fnmd": True, "cap": {"quick": 200, "thorough": 1500}})],
+                  "thorough": [("MCQueryGen_core_t.cfg", None), ("MCQueryGen_schema_t.cfg", None), ("MCQueryGen_fault_t.cfg", None)] + _ROWS("thorough")
+                              + [("MCQueryGen_userfn_et.cfg", None, {"fnmd": True, "cap": {"quick": 200, "thorough": 1500}})]},
         events={"quick": 3, "thorough": 3},
         cap={"quick": 1900, "thorough": 19000},
         nontrivial="translated",
@@ -52,8 +58,8 @@ SPECS = {
     "C03": pcheck.PSpec(
         "C03",
         clauses=["SchemaMatches", "StorageDistinct", "DescriptorMatches", "Accepts", "Refuses", "RowsMatch", "Compiles", "BookingFault"],
-        profiles={"quick": [("MCQueryGen_schema.cfg", None)] + _ROWS("quick"),
-                  "thorough": [("MCQueryGen_schema_t.cfg", None)] + _ROWS("thorough")},
+        profiles={"quick": [("MCQueryGen_schema.cfg", None)] + _ROWS("quick") + _TREETYPES,
+                  "thorough": [("MCQueryGen_schema_t.cfg", None)] + _ROWS("thorough") + _TREETYPES},
         events={"quick": 6, "thorough": 12},
         cap={"quick": 1200, "thorough": 15000},
     ),
@@ -114,10 +120,12 @@ SPECS = {
     "C12": pcheck.PSpec(
         "C12",
         clauses=["Accepts", "Compiles", "RowsMatch", "SpuriousFault", "BookingFault", "SchemaMatches"],
-        profiles={"quick": [("MCQueryGen_math.cfg", None), ("MCQueryGen_math_ctx.cfg", None)],
-                  "thorough": [("MCQueryGen_math.cfg", None), ("MCQueryGen_math_ctx.cfg", None)]},
+        profiles={"quick": [("MCQueryGen_math.cfg", None), ("MCQueryGen_math_ctx.cfg", None),
+                            ("MCQueryGen_mathfirst.cfg", None, {"cap": {"quick": 240, "thorough": 1000}})],
+                  "thorough": [("MCQueryGen_math.cfg", None), ("MCQueryGen_math_ctx.cfg", None),
+                               ("MCQueryGen_mathfirst.cfg", None, {"cap": {"quick": 240, "thorough": 1000}})]},
         events={"quick": 4, "thorough": 10},
-        cap={"quick": 800, "thorough": 30000},
+        cap={"quick": 1040, "thorough": 31000},
         math=True,
         stratify=_first_math,
     ),
